@@ -139,7 +139,7 @@ def main():
                 fx = os.path.join(mut["dir"], "fixture")
                 if os.path.isdir(fx):
                     # the demo looks for <crate>/seeded/<n>/fixture
-                    n = mut["id"].split("-")[-1]
+                    n = str(json.load(open(os.path.join(mut["dir"], "meta.json"))).get("fixture_n", mut["id"].split("-")[-1]))
                     dst = os.path.join(REPO, "seeded", n, "fixture")
                     shutil.rmtree(os.path.join(REPO, "seeded"), ignore_errors=True)
                     shutil.copytree(fx, dst)
